@@ -36,6 +36,11 @@ pub enum PresKind {
     Pushed,
     /// a window of the static `iupac!` literal holding a De Bruijn sequence (every codon once)
     Static,
+    /// the carrier is the RESULT of another library operation: reverse of the reversed text
+    /// (copying and in-place forms), complement of the complemented text, reverse-complement,
+    /// `|` of two subset sequences, `&` of two superset sequences, `from_raw(into_raw())`,
+    /// conversion from a `Seq<Dna>`, or the codon is the `Deref` view of a `Kmer<Iupac, n>`
+    Derived,
 }
 
 #[derive(Serialize, Deserialize, Clone, Debug, PartialEq, Eq)]
@@ -133,6 +138,7 @@ fn gen_pres(rng: &mut Rng, n: usize) -> Pres {
         9..=10 => PresKind::Reslice,
         11..=12 => PresKind::Edited,
         13 => PresKind::Pushed,
+        14 => PresKind::Derived,
         _ => {
             if n == 3 {
                 PresKind::Static
@@ -152,7 +158,7 @@ fn gen_pres(rng: &mut Rng, n: usize) -> Pres {
     let words = rng.below(3);
     let mut off = if kind == PresKind::Parsed { 0 } else { words * 16 + residue };
     // rarely: a window far into a long carrier (offsets around 2^8, 2^12 and 2^16 symbols)
-    if kind != PresKind::Parsed && kind != PresKind::Static && rng.chance(1, 600) {
+    if kind != PresKind::Parsed && kind != PresKind::Static && kind != PresKind::Derived && rng.chance(1, 600) {
         off = *rng.pick(&[255usize, 256, 257, 1023, 4095, 4096, 4097, 16383, 65535, 65536, 65537]) + rng.below(3) * 16;
     }
     let tail = if kind == PresKind::Parsed { 0 } else { rng.below(20) };
@@ -439,6 +445,102 @@ pub fn present<R>(text: &str, pres: &Pres, f: impl FnOnce(&SeqSlice<Iupac>) -> R
             }
             c.extend(filler(&mut rng, pres.tail));
             f(&c[off..off + n])
+        }
+        PresKind::Derived => {
+            let mut all = filler(&mut rng, off);
+            all.extend_from_slice(&syms);
+            all.extend(filler(&mut rng, pres.tail));
+            let set_of = |s: &Iupac| oracle::base_set(s.to_char() as u8);
+            let sym_of_set = |m: u8| sym(oracle::letter_of_set(m));
+            // complement of a base set in the oracle's numbering (A=1 C=2 G=4 T=8): A<->T, C<->G
+            let comp = |s: &Iupac| {
+                let m = set_of(s);
+                sym_of_set(((m & 1) << 3) | ((m & 8) >> 3) | ((m & 2) << 1) | ((m & 4) >> 1))
+            };
+            let concrete = all.iter().all(|s| set_of(s).count_ones() == 1);
+            match rng.below(9) {
+                0 => {
+                    let r: Seq<Iupac> = all.iter().rev().copied().collect();
+                    let c: Seq<Iupac> = r.to_rev();
+                    f(&c[off..off + n])
+                }
+                1 => {
+                    let mut r: Seq<Iupac> = all.iter().rev().copied().collect();
+                    r.rev();
+                    f(&r[off..off + n])
+                }
+                2 => {
+                    let cc: Seq<Iupac> = all.iter().map(comp).collect();
+                    let c: Seq<Iupac> = cc.to_comp();
+                    f(&c[off..off + n])
+                }
+                3 => {
+                    let rc: Seq<Iupac> = all.iter().rev().map(comp).collect();
+                    let c: Seq<Iupac> = rc.to_revcomp();
+                    f(&c[off..off + n])
+                }
+                4 => {
+                    // union of two subset sequences
+                    let mut a = Vec::new();
+                    let mut b = Vec::new();
+                    for s in &all {
+                        let m = set_of(s);
+                        let x = m & (rng.below(16) as u8);
+                        let y = (m & !x) | (m & (rng.below(16) as u8));
+                        a.push(sym_of_set(x));
+                        b.push(sym_of_set(y));
+                    }
+                    let a: Seq<Iupac> = a.into_iter().collect();
+                    let b: Seq<Iupac> = b.into_iter().collect();
+                    let c: Seq<Iupac> = &a[..] | &b[..];
+                    f(&c[off..off + n])
+                }
+                5 => {
+                    // intersection of two superset sequences
+                    let mut a = Vec::new();
+                    let mut b = Vec::new();
+                    for s in &all {
+                        let m = set_of(s);
+                        let extra = (rng.below(16) as u8) & !m;
+                        let split = rng.below(16) as u8;
+                        a.push(sym_of_set(m | (extra & split)));
+                        b.push(sym_of_set(m | (extra & !split)));
+                    }
+                    let a: Seq<Iupac> = a.into_iter().collect();
+                    let b: Seq<Iupac> = b.into_iter().collect();
+                    let c: Seq<Iupac> = &a[..] & &b[..];
+                    f(&c[off..off + n])
+                }
+                6 => {
+                    let orig: Seq<Iupac> = all.iter().copied().collect();
+                    let c: Seq<Iupac> = Seq::from_raw(orig.len(), orig.into_raw()).expect("harness: from_raw of into_raw");
+                    f(&c[off..off + n])
+                }
+                7 if concrete => {
+                    let d: Seq<Dna> = all
+                        .iter()
+                        .map(|s| Dna::try_from_ascii(s.to_char() as u8).expect("harness: concrete base"))
+                        .collect();
+                    let c: Seq<Iupac> = Seq::from(&d[..]);
+                    f(&c[off..off + n])
+                }
+                _ => {
+                    let carrier: Seq<Iupac> = all.iter().copied().collect();
+                    let w = &carrier[off..off + n];
+                    macro_rules! via_kmer {
+                        ($($k:literal),*) => {
+                            match n {
+                                $( $k => {
+                                    let k: Kmer<Iupac, $k> = Kmer::try_from(w).expect("harness: kmer of a window");
+                                    f(&k)
+                                } )*
+                                _ => f(w),
+                            }
+                        };
+                    }
+                    via_kmer!(1, 2, 3, 4, 5, 6, 7, 16)
+                }
+            }
         }
         PresKind::Static => {
             assert!(n == 3, "harness: static presentation is for codons");
@@ -827,7 +929,7 @@ pub fn run(cfg: &Config) -> RunResult {
 
 fn note_pres(stats: &mut RunStats, pres: &Pres, n: usize) {
     *stats.pres_kinds.entry(format!("{:?}", pres.kind)).or_insert(0) += 1;
-    if pres.kind != PresKind::Static {
+    if pres.kind != PresKind::Static && pres.kind != PresKind::Derived {
         if pres.off >= 255 {
             stats.far_offset_windows += 1;
         }
